@@ -35,7 +35,7 @@ def parseL4Case (j : Json) : Rt.Case :=
     finishers := strList j "finishers", concurrent := gn j "concurrent", op := gs j "op",
     dests := gs j "dests", calls := strList j "calls", cancelAt := optInt j "cancelAt",
     preCtx := gs j "preCtx", extraSets := gn j "extraSets", fewCols := gb j "fewCols",
-    pairOp := gs j "pairOp", aEnd := gs j "aEnd" }
+    pairOp := gs j "pairOp", aEnd := gs j "aEnd", otherShape := gb j "otherShape" }
 
 def parseL4Obs (j : Json) : Rt.Obs :=
   { returns := strList j "returns", events := strList j "events", eventCtx := strList j "eventCtx",
